@@ -355,6 +355,25 @@ pub fn program(rng: &mut Rng) -> (Program, &'static str) {
                 }
                 block_local = Some(l);
             }
+            8 => {
+                // a loop that runs several times: names first assigned in the body are fresh in
+                // every iteration (a stale read in a later iteration is an unknown name)
+                let counter = g.fresh();
+                let fresh = g.fresh();
+                let stale = g.fresh();
+                let times = g.rng.range(2, 4) as f64;
+                top.push(put(num(0.0), &counter));
+                let mut body = vec![
+                    Stmt::Inc { dest: Ident::Name(counter.clone()), n: 1 },
+                    Stmt::Push { array: pvar(&fresh), value: Some(PushRhs::List(vec![var(&counter)])) },
+                    say(var(&fresh)),
+                ];
+                if g.rng.chance(1, 3) {
+                    body.push(Stmt::If { cond: bin(BinOp::Eq, var(&counter), num(2.0)), then: vec![say(var(&stale))], els: None });
+                }
+                body.push(put(var(&counter), &stale));
+                top.push(Stmt::While { cond: bin(BinOp::Less, var(&counter), num(times)), body });
+            }
             7 => {
                 // sum of two calls: evaluation order through Echo witnesses
                 let (fa, fb) = (g.rng.below(g.funcs.len()), g.rng.below(g.funcs.len()));
